@@ -171,6 +171,21 @@ def gen_cases(tier):
         cases.append(c)
     for name, t in CG.HAND:
         cases.append(mk_case('hand:' + name, t, 'hand', lib.rng('C03h' + name), len(cases), nextra=1))
+    # forced sweep (both tiers): classes of seeded defects the random streams missed; objects live in
+    # modules other than `default`, session 0 has default module `default`, session 1 the object's module
+    for name, t in CG.SWEEP:
+        cases.append(mk_case('sweep:' + name, t, 'sweep', lib.rng('C03s' + name), len(cases), nextra=1))
+    for name, t in CG.SWEEP_DDL:
+        c = mk_case('sweep:' + name, 'module default {}; module other {}', 'sweep', lib.rng('C03s' + name), len(cases), nextra=1)
+        c['ddl_in'] = t
+        c['sessions'] = [[[None, 'default']], [[None, 'other']], [[None, 'nonexistent_mod']], []] + c['sessions'][-1:]
+        cases.append(c)
+    for i in range(2 if quick else 12):
+        rnd = lib.rng(f'C03shadow{i}')
+        t, names = CG.shadow_doc(rnd, ['User', 'Post', 'fmt'])
+        c = mk_case(f'sweep:shadow{i}:' + '/'.join(names), t + '\nmodule default { type User; type Post; function fmt(a: str) -> str using (a); }',
+                    'sweep', rnd, len(cases), nextra=0)
+        cases.append(c)
     for name, t in CG.ACYCLIC_LOOKALIKE[: (4 if quick else 99)]:
         cases.append(mk_case('ok:' + name, CG.wrap_default(t), 'hand', lib.rng('C03h' + name), len(cases)))
     ups = CG.upstream_corpus(lib.REPO, 3000 if quick else 9000)
@@ -230,7 +245,7 @@ def run_impl(cases, mode, workers=8, timeout=7200):
 
 
 def slim(case):
-    return {k: case[k] for k in ('tag', 'sdl', 'sessions', 'own', 'commit') if k in case}
+    return {k: case[k] for k in ('tag', 'sdl', 'ddl_in', 'sessions', 'ncoll', 'own', 'commit') if k in case}
 
 
 def brief(v):
@@ -256,7 +271,7 @@ def judge(case, r, known):
     if r is None or 'harness_error' in r:
         return [('harness', None, 'harness error: ' + json.dumps((r or {}).get('harness_error'))[:300], {'case': slim(case)})]
     if r['status'] != 'ok':
-        if case['kind'] == 'hand':
+        if case['kind'] in ('hand', 'sweep'):
             # the hand-written families are valid schemas on the pinned tree: if the system no longer
             # accepts one the check loses its inputs (reported as a broken tie, no failing input)
             e = r.get('err') or {}
